@@ -134,6 +134,13 @@ pub enum T12 {
     T2Only,
     Valid,
     Tight,
+    /// the RFC defaults spelled out: (L/2, 7L/8)
+    Spelled,
+    /// explicit pairs around a max_lease_duration cap c (only in configurations with a cap):
+    /// (c-1, c), (c, c+1), (c+1, L-1) — valid for a server lease L > c+2, not for the capped one
+    CapLo(u32),
+    CapAt(u32),
+    CapHi(u32),
 }
 
 #[derive(Clone, Copy, PartialEq, Eq, Hash)]
@@ -220,15 +227,39 @@ fn t12_values(t: T12, lease: Option<u32>) -> (Option<u32>, Option<u32>) {
         T12::T2Only => (None, Some(l / 4)),
         T12::Valid => (Some(l / 4), Some(l / 2)),
         T12::Tight => (Some(l.saturating_sub(2)), Some(l.saturating_sub(1))),
+        T12::Spelled => (Some(l / 2), Some((l as u64 * 7 / 8) as u32)),
+        T12::CapLo(c) => (Some(c.saturating_sub(1)), Some(c)),
+        T12::CapAt(c) => (Some(c), Some(c.saturating_add(1))),
+        T12::CapHi(c) => (Some(c.saturating_add(1)), Some(l.saturating_sub(1))),
     }
 }
 
 const LEASES: [Option<u32>; 7] = [None, Some(0), Some(1), Some(2), Some(60), Some(600), Some(u32::MAX)];
-const T12S: [T12; 9] =
-    [T12::Absent, T12::Zero, T12::Equal, T12::Inverted, T12::Over, T12::T1Only, T12::T2Only, T12::Valid, T12::Tight];
+const T12S: [T12; 10] = [
+    T12::Absent,
+    T12::Zero,
+    T12::Equal,
+    T12::Inverted,
+    T12::Over,
+    T12::T1Only,
+    T12::T2Only,
+    T12::Valid,
+    T12::Tight,
+    T12::Spelled,
+];
 
-fn alphabet(alpha: u8, earlier: bool) -> Vec<MsgSpec> {
+/// `cap` = the configuration's max_lease_duration: adds a control lease just below the cap and
+/// the explicit T1/T2 pairs around the cap (singly and paired with every lease value).
+fn alphabet(alpha: u8, earlier: bool, cap: Option<u32>) -> Vec<MsgSpec> {
     let mut v = vec![];
+    let mut leases: Vec<Option<u32>> = LEASES.to_vec();
+    let mut t12s: Vec<T12> = T12S.to_vec();
+    if let Some(c) = cap {
+        if c >= 20 {
+            leases.push(Some(c - 10));
+        }
+        t12s.extend([T12::CapLo(c), T12::CapAt(c), T12::CapHi(c)]);
+    }
     let xids: &[X] = if earlier { &[X::Earlier, X::Foreign] } else { &[X::Foreign] };
     // OFFER: base + single deviations in the dimensions an OFFER has
     let o = base(MT::Offer);
@@ -258,12 +289,12 @@ fn alphabet(alpha: u8, earlier: bool) -> Vec<MsgSpec> {
     for y in [Y::Bcast, Y::Zero, Y::Mcast] {
         v.push(MsgSpec { yi: y, ..a });
     }
-    for l in LEASES {
+    for &l in &leases {
         if l != a.lease {
             v.push(MsgSpec { lease: l, ..a });
         }
     }
-    for t in T12S {
+    for &t in &t12s {
         if t != a.t12 {
             v.push(MsgSpec { t12: t, ..a });
         }
@@ -273,11 +304,11 @@ fn alphabet(alpha: u8, earlier: bool) -> Vec<MsgSpec> {
     if alpha == 0 {
         // pairs over a reduced set: lease x T1/T2 (the two dimensions that interact in
         // parse_ack), unicast delivery x tiny leases
-        for l in LEASES {
+        for &l in &leases {
             if l == a.lease {
                 continue;
             }
-            for t in T12S {
+            for &t in &t12s {
                 if t == a.t12 {
                     continue;
                 }
@@ -504,7 +535,8 @@ const L_TAINTED: u32 = 128;
 const L_RUN_CAPPED: u32 = 256;
 const L_T2ONLY_NO_RENEW: u32 = 512;
 const L_RUN_FULL_LEASE: u32 = 1024;
-const LABEL_NAMES: [(&str, u32); 11] = [
+const L_RUN_ANY_REQUEST: u32 = 2048;
+const LABEL_NAMES: [(&str, u32); 12] = [
     ("configured", L_CONFIGURED),
     ("renew_attempt_seen_in_lease", L_RENEW_SEEN),
     ("rebind_attempt_seen_in_lease", L_REBIND_SEEN),
@@ -516,6 +548,7 @@ const LABEL_NAMES: [(&str, u32); 11] = [
     ("run_silent_capped", L_RUN_CAPPED),
     ("observation_lone_T2_rebind_without_renew", L_T2ONLY_NO_RENEW),
     ("silent_run_checked_renew_and_rebind_before_expiry", L_RUN_FULL_LEASE),
+    ("lease_end_checked_some_request_before_expiry", L_RUN_ANY_REQUEST),
 ];
 
 /// side channel for vacuity statistics (never for verdicts): per distinct state fingerprint and
@@ -931,6 +964,25 @@ impl DhcpH {
                                 }
                             }
                         }
+                        if let Some(l) = self.m.lease.clone() {
+                            // Weak form for every lease "long enough for T1 to exist": silent
+                            // server, clock following poll_at, device never blocked, and the
+                            // granted lease after the max_lease cap is at least 10 s (LENIENT:
+                            // far above the 1 s neighbour-discovery silence and sub-second T1 of
+                            // tiny leases): the address must not be given up without a single
+                            // renewal-type REQUEST (unicast renew, broadcast rebind, or the ARP
+                            // request for the server that precedes a unicast renew).  Judged
+                            // whatever T1/T2 options the ACK carried.
+                            if !ctx.any_dhcp && l.silent && l.faithful && !self.m.tainted && l.secs_capped.is_some_and(|s| s >= 10) {
+                                self.m.labels |= L_RUN_ANY_REQUEST;
+                                if !l.renew_seen && !l.rebind_seen && !self.silenced() {
+                                    out.push(Viol::new(
+                                        "C18/renew/no-request-before-expiry",
+                                        format!("lease of {:?} s (after the max_lease cap) ended at {} without a single renewal or rebinding REQUEST although the server was silent, the device accepted frames and the client was polled at every poll_at", l.secs_capped, tsec(self.now)),
+                                    ));
+                                }
+                            }
+                        }
                         self.m.unconf_ref = self.now;
                         self.m.nosol_pollats = 0;
                     }
@@ -1095,7 +1147,7 @@ impl DhcpH {
 }
 
 
-const EVENT_SCOPED: u32 = L_EXPIRED | L_NAK_DECONF | L_LEASE_RENEWED | L_RUN_CAPPED | L_T2ONLY_NO_RENEW | L_RUN_FULL_LEASE;
+const EVENT_SCOPED: u32 = L_EXPIRED | L_NAK_DECONF | L_LEASE_RENEWED | L_RUN_CAPPED | L_T2ONLY_NO_RENEW | L_RUN_FULL_LEASE | L_RUN_ANY_REQUEST;
 
 impl Harness for DhcpH {
     type Cfg = Cfg;
@@ -1154,7 +1206,7 @@ impl Harness for DhcpH {
         if self.m.tainted {
             return vec![];
         }
-        let mut v: Vec<(Ev, u32)> = alphabet(self.cfg.alpha, self.m.earlier_xid.is_some()).into_iter().map(|m| (Ev::Msg(m), 1)).collect();
+        let mut v: Vec<(Ev, u32)> = alphabet(self.cfg.alpha, self.m.earlier_xid.is_some(), self.cfg.max_lease).into_iter().map(|m| (Ev::Msg(m), 1)).collect();
         for b in bursts() {
             v.push((Ev::Burst(b), 1));
         }
@@ -1440,11 +1492,11 @@ pub fn run(tier: Tier) -> i32 {
     rep.assumptions.push("stimulus frames are built with smoltcp::wire emitters (trusted for building, not as oracle); what the client sends is read with an independent parser (RFC 826/951/2131 offsets)".into());
     rep.assumptions.push("one dhcpv4::Socket on one Ethernet interface; the harness applies Configured/Deconfigured to the interface exactly like examples/dhcp_client.rs; device back-pressure (transmit() refusing every frame between a block-tx and an unblock-tx event) is an event dimension in the configurations marked bp: true, elsewhere the device never refuses".into());
     rep.assumptions.push("server messages deviate from a well-formed base message in ONE dimension (all values) or in the pair lease x T1/T2 (all values) / unicast x tiny lease; yiaddr values: 192.168.1.42, 255.255.255.255, 0.0.0.0, 224.0.0.1 (subnet-directed broadcast is read as 'unicast', lenient)".into());
-    rep.assumptions.push("lenient readings: expiry = arrival + lease OPTION (max_lease_duration only aims time events); ACK without lease option grants nothing checkable; renew-before-rebind only demanded when the ACK carried both or none of T1/T2; 'renew and rebind attempted before expiry' only for silent server, clock following poll_at, lease >= 600 s; an ARP request for the server counts as renewal attempt; order/attempt verdicts only for leases during which the device accepted frames all the time, solicitation bound only demanded while the device accepts frames (reference restarts at unblock-tx); back-off bound = max(discover_timeout, initial_request_timeout << ((retries-1)/2)) + 1 s + 1 ms".into());
+    rep.assumptions.push("lenient readings: expiry = arrival + lease OPTION (max_lease_duration only aims time events); ACK without lease option grants nothing checkable; renew-before-rebind only demanded when the ACK carried both or none of T1/T2; 'renew and rebind attempted before expiry' only for silent server, clock following poll_at, lease (after the max_lease cap) >= 600 s; weak form 'some renewal-type REQUEST before the address is given up' for capped lease >= 10 s; an ARP request for the server counts as renewal attempt; order/attempt verdicts only for leases during which the device accepted frames all the time, solicitation bound only demanded while the device accepts frames (reference restarts at unblock-tx); back-off bound = max(discover_timeout, initial_request_timeout << ((retries-1)/2)) + 1 s + 1 ms".into());
     rep.assumptions.push("state merging: instants relative to now (all <= now equivalent), xid value / PRNG / IPv4 ident stripped (only relations between xids matter, kept in the model image)".into());
 
     // quick: d<=6 on the two extreme configurations, d<=5 on the others; thorough: the full
-    // 2x2x2 configuration cube (d<=9, d<=8 with ignore_naks) plus the singles-only alphabet at d<=10
+    // 2x2x2 configuration cube (d<=9; d<=8 with ignore_naks or a max-lease cap) plus the singles-only alphabet at d<=10
     let mut cfgs: Vec<(Cfg, usize)> = vec![];
     if tier == Tier::Quick {
         cfgs.push((Cfg { retry_short: false, max_lease: None, ignore_naks: false, alpha: 0, bp: false }, 6));
@@ -1454,11 +1506,14 @@ pub fn run(tier: Tier) -> i32 {
         cfgs.push((Cfg { retry_short: false, max_lease: None, ignore_naks: true, alpha: 0, bp: false }, 5));
         cfgs.push((Cfg { retry_short: false, max_lease: None, ignore_naks: false, alpha: 0, bp: true }, 5));
         cfgs.push((Cfg { retry_short: true, max_lease: Some(30), ignore_naks: false, alpha: 1, bp: true }, 5));
+        // a cap long enough for the strong renew-and-rebind clause to be judged on capped leases
+        cfgs.push((Cfg { retry_short: false, max_lease: Some(600), ignore_naks: false, alpha: 0, bp: false }, 4));
     } else {
         for ignore_naks in [false, true] {
             for retry_short in [false, true] {
                 for max_lease in [None, Some(30)] {
-                    cfgs.push((Cfg { retry_short, max_lease, ignore_naks, alpha: 0, bp: false }, if ignore_naks { 8 } else { 9 }));
+                    // (the max-lease configurations carry the larger alphabet: one level less)
+                    cfgs.push((Cfg { retry_short, max_lease, ignore_naks, alpha: 0, bp: false }, if ignore_naks || max_lease.is_some() { 8 } else { 9 }));
                 }
             }
         }
@@ -1468,6 +1523,9 @@ pub fn run(tier: Tier) -> i32 {
         cfgs.push((Cfg { retry_short: false, max_lease: None, ignore_naks: false, alpha: 0, bp: true }, 8));
         cfgs.push((Cfg { retry_short: true, max_lease: Some(30), ignore_naks: false, alpha: 0, bp: true }, 8));
         cfgs.push((Cfg { retry_short: false, max_lease: None, ignore_naks: true, alpha: 1, bp: true }, 9));
+        // caps long enough for the strong renew-and-rebind clause to be judged on capped leases
+        cfgs.push((Cfg { retry_short: false, max_lease: Some(600), ignore_naks: false, alpha: 0, bp: false }, 7));
+        cfgs.push((Cfg { retry_short: true, max_lease: Some(300), ignore_naks: false, alpha: 0, bp: false }, 7));
     }
     let lim = Limits::default();
     let mut per_cfg = vec![];
@@ -1499,14 +1557,14 @@ pub fn run(tier: Tier) -> i32 {
             Err(e) => rep.machinery_errors.push(e),
         }
         let h = DhcpH::new(cfg);
-        alpha_sizes.insert(format!("alpha{}{}", cfg.alpha, if cfg.bp { "+bp" } else { "" }), json!({
-            "server_messages": alphabet(cfg.alpha, true).len(), "bursts": bursts().len(),
+        alpha_sizes.insert(format!("alpha{}{}{}", cfg.alpha, if cfg.bp { "+bp" } else { "" }, cfg.max_lease.map_or(String::new(), |c| format!("+cap{}", c))), json!({
+            "server_messages": alphabet(cfg.alpha, true, cfg.max_lease).len(), "bursts": bursts().len(),
             "max_events_enabled_initially": h.enabled().len()}));
     }
     *LABELS.lock().unwrap() = None;
     rep.cov("per_configuration", json!(per_cfg));
     rep.cov("alphabet", json!(alpha_sizes));
-    rep.cov("rule", json!("BFS over choice histories replayed on a fresh real Interface+dhcpv4::Socket; from every distinct state every enabled event: each server message of the alphabet (built from the latest client message on the wire; types OFFER/ACK/NAK/DISCOVER/INFORM/REQUEST; xid latest/earlier/foreign; chaddr own/foreign; server-id present/absent; mask /24, 255.0.255.0, absent; yiaddr unicast/broadcast/0/multicast; lease absent,0,1,2,60,600,2^32-1; T1/T2 absent,0/0,equal,inverted,>lease,T1 only,T2 only,valid,tight; router/DNS present/absent; broadcast/unicast delivery), 4 two-frame bursts in ONE poll, ARP reply, clock to poll_at, +1 s, expiry-1us/expiry/expiry+1us (statement expiry and max_lease-capped expiry), silent-server run following poll_at to the end of the lease (ARP answered / not), block-tx / unblock-tx (bp configurations). One Interface::poll + drain of Socket::poll() per event; all oracles after every poll."));
+    rep.cov("rule", json!("BFS over choice histories replayed on a fresh real Interface+dhcpv4::Socket; from every distinct state every enabled event: each server message of the alphabet (built from the latest client message on the wire; types OFFER/ACK/NAK/DISCOVER/INFORM/REQUEST; xid latest/earlier/foreign; chaddr own/foreign; server-id present/absent; mask /24, 255.0.255.0, absent; yiaddr unicast/broadcast/0/multicast; lease absent,0,1,2,60,600,2^32-1; T1/T2 absent,0/0,equal,inverted,>lease,T1 only,T2 only,valid,tight,(L/2,7L/8) spelled out, and in max-lease configurations (cap-1,cap),(cap,cap+1),(cap+1,L-1) plus a control lease cap-10; router/DNS present/absent; broadcast/unicast delivery), 4 two-frame bursts in ONE poll, ARP reply, clock to poll_at, +1 s, expiry-1us/expiry/expiry+1us (statement expiry and max_lease-capped expiry), silent-server run following poll_at to the end of the lease (ARP answered / not), block-tx / unblock-tx (bp configurations). One Interface::poll + drain of Socket::poll() per event; all oracles after every poll."));
 
     rep.cov("caps", json!(format!("the silent-server macro event stops after {} polls (enough for a complete 600 s lease with the ARP request repeated every second); runs that hit the cap are counted as run_silent_capped (leases of 2^32-1 s) and make no attempt verdict; no other cap", RUN_CAP)));
     // narrated samples: a full lease life cycle under each retry configuration
